@@ -38,8 +38,46 @@ def plan(tier, seed):
     n = 12 if q else 32
     specs = [{"kind": "rand", "i": i, "count": 70 if q else 600} for i in range(n)]
     specs += [{"kind": "poly", "i": i, "count": 6 if q else 40} for i in range(4 if q else 8)]
-    specs += [{"kind": "cli", "i": i} for i in range(7)]
+    specs += [{"kind": "cli", "i": i} for i in range(7 if q else 28)]
+    specs.append({"kind": "corpus", "big": not q})
     return specs
+
+
+def corpus(ctx, spec):
+    """data/*.in.json of the tree under test through the real API (the CRISPR input has three polytomies,
+    15 leaves, 11 families and species names with spaces; thorough tier only)."""
+    import os
+    from superrec2.model.reconciliation import SuperReconciliationInput
+
+    repo = os.environ.get("VERIF_REPO", "/repo")
+    names = ["example.in.json"] + (["crispr-class1.in.json"] if spec.get("big") else [])
+    for name in names:
+        path = os.path.join(repo, "data", name)
+        if not os.path.exists(path):
+            ctx.notes.append(f"corpus file {name} not present")
+            continue
+        data = json.load(open(path))
+        algos = ["superdtl", "ext_spfs", "base_uspfs", "base_spfs"] if name.startswith("example") else ["superdtl"]
+        for algo in algos:
+            inp = SuperReconciliationInput.from_dict(data)
+            case = {"kind": "corpus", "file": name, "algo": algo}
+            before = snapshot(inp)
+            obs = SC.call(algo, inp, ANY if spec.get("big") and name.startswith("crispr") else ALL)
+            ctx.count("evaluations")
+            ctx.count("corpus_runs")
+            if snapshot(inp) != before:
+                ctx.viol("C04.mutation", case, f"{algo} modified its input")
+            if obs.exc is not None:
+                ctx.viol("C04.total", case, f"{algo} raised on {name}: {obs.exc}")
+                continue
+            c = bridge.costs_of(inp)
+            for e in obs.ext:
+                ctx.count("mon.valid_solutions")
+                why = judge_solution(e, SC.kind_of(algo), c)
+                if why:
+                    ctx.viol("C04.valid", case, f"{algo} on {name}: returned solution is {why}")
+                    break
+            ctx.sig(("corpus", name, algo), True)
 
 
 def snapshot(inp):
@@ -178,6 +216,8 @@ def canaries(ctx):
 
 def run(ctx, spec):
     rng = ctx.rng(spec["kind"])
+    if spec["kind"] == "corpus":
+        return corpus(ctx, spec)
     if spec["kind"] == "rand":
         for k in range(spec["count"]):
             fam = k % 3
@@ -225,6 +265,8 @@ def run(ctx, spec):
 
 
 def replay(ctx, case):
+    if case["kind"] == "corpus":
+        return corpus(ctx, {"big": case.get("file", "").startswith("crispr")})
     if case["kind"] == "cli":
         return check_cli(ctx, case)
     if case.get("algo"):
